@@ -281,10 +281,10 @@ type tgen struct {
 	n int // running number: Go field names and configuration names are unique per generated type
 }
 
-func (g *tgen) tag(opts []string, extra string) reflect.StructTag {
+func (g *tgen) tag(num int, opts []string, extra string) reflect.StructTag {
 	name := ""
 	if g.r.Intn(10) < 7 {
-		name = "k" + strconv.Itoa(g.n)
+		name = "k" + strconv.Itoa(num)
 	}
 	if name == "" && len(opts) == 0 && g.r.Intn(2) == 0 {
 		return reflect.StructTag(strings.TrimSpace(extra))
@@ -300,7 +300,7 @@ func (g *tgen) primStruct() reflect.Type {
 	var fs []reflect.StructField
 	for i, n := 0, 1+g.r.Intn(3); i < n; i++ {
 		g.n++
-		fs = append(fs, reflect.StructField{Name: "F" + strconv.Itoa(g.n), Type: primTypes[g.r.Intn(len(primTypes))], Tag: g.tag(nil, "")})
+		fs = append(fs, reflect.StructField{Name: "F" + strconv.Itoa(g.n), Type: primTypes[g.r.Intn(len(primTypes))], Tag: g.tag(g.n, nil, "")})
 	}
 	return reflect.StructOf(fs)
 }
@@ -314,7 +314,8 @@ func (g *tgen) structType(depth, nf int, validators bool) reflect.Type {
 	var fs []reflect.StructField
 	for i := 0; i < nf; i++ {
 		g.n++
-		sf := reflect.StructField{Name: "F" + strconv.Itoa(g.n)}
+		num := g.n
+		sf := reflect.StructField{Name: "F" + strconv.Itoa(num)}
 		var opts []string
 		extra := ""
 		x := r.Intn(100)
@@ -374,11 +375,9 @@ func (g *tgen) structType(depth, nf int, validators bool) reflect.Type {
 			sf.Type = reflect.MapOf(tString, g.primStruct())
 		}
 		if len(opts) == 0 && extra == "" && r.Intn(12) == 0 {
-			opts = append(opts, "ignore")
-		} else if len(opts) == 1 && (opts[0] == "inline" || opts[0] == "squash") {
-			// nothing: an inline field is never ignored here
+			opts = append(opts, "ignore") // never together with inline, a policy or a validator
 		}
-		sf.Tag = g.tag(opts, extra)
+		sf.Tag = g.tag(num, opts, extra)
 		fs = append(fs, sf)
 	}
 	return reflect.StructOf(fs)
